@@ -187,6 +187,46 @@ def _ref_flat(x, LM):
     return out
 
 
+def _layered_values_oracle(ctx: Ctx):
+    """the mapping laws do not depend on what the values are: None, 0, False, '' and [] shadow and are returned like any other value"""
+    from formulaic.utils.layered_mapping import LayeredMapping as LM
+    rng = ctx.fork("layered-values")
+    vals = [None, 0, False, "", (), 0.0, 5, "x", True]
+    missing = object()
+    for i in range(ctx.n(300, 4000)):
+        layers = [{k: rng.choice(vals) for k in rng.sample(KEYS, rng.randrange(0, 4))} for _ in range(rng.randrange(0, 4))]
+        if layers and rng.random() < 0.4:
+            layers[-1] = LM(layers[-1], {k: rng.choice(vals) for k in rng.sample(KEYS, 2)}, name="inner")
+        m = LM(*layers, name=rng.choice(NAMES))
+        writes = {}
+        for k in rng.sample(KEYS + ["new"], rng.randrange(0, 4)):
+            writes[k] = rng.choice(vals)
+            m[k] = writes[k]
+        flat = []
+        for layer in layers:
+            flat.extend(_ref_flat(layer, LM) if isinstance(layer, LM) else [(k, v, []) for k, v in layer.items()])
+        first = dict((k, v) for k, v in reversed([(k, v) for k, v, _ in flat]))
+        first.update(writes)
+        ctx.oracle_runs += 1
+        rp = {"kind": "layered-values", "layers": repr(layers), "writes": repr(writes)}
+        for k in KEYS + ["new"]:
+            try:
+                got = m[k]
+            except KeyError:
+                got = missing
+            want = first.get(k, missing)
+            if not (got is want or (got == want and type(got) is type(want))):
+                ctx.fail(f"m[{k!r}] is {'a KeyError' if got is missing else repr(got)}, the top-first merge gives {'no such key' if want is missing else repr(want)}", rp)
+            if (k in m) != (k in first) or ((k in list(m)) != (k in first)):
+                ctx.fail(f"membership / iteration of {k!r} disagrees with the layers", rp)
+            v, nm = m.get_with_layer_name(k, missing)
+            if not (v is want or (v == want and type(v) is type(want))):
+                ctx.fail(f"get_with_layer_name({k!r}) gives {v!r}, lookup gives {'no such key' if want is missing else repr(want)}", rp)
+        if len(m) != len(first):
+            ctx.fail(f"len is {len(m)}, the layers hold {len(first)} distinct keys", rp)
+        ctx.count("layered-values", f"layers={len(layers)}")
+
+
 def _layered_stream(ctx: Ctx):
     from formulaic.utils.layered_mapping import LayeredMapping as LM
     rng = ctx.fork("layered")
@@ -362,6 +402,7 @@ def run(ctx: Ctx):
     warnings.simplefilter("ignore")
     _struct_stream(ctx)
     _layered_stream(ctx)
+    _layered_values_oracle(ctx)
     _formula_stream(ctx)
 
 
